@@ -70,3 +70,5 @@ LEVEL = {
     'technique': 'Coq proof (key and path disjointness for delimiter-free ids, non-interference by induction over histories, refutations for '
                  '"/" , "." and "..") + two-tenant interleaved histories over the real HTTP handlers with view and directory-tree comparison',
 }
+
+CFG['rule'] = CFG['rule'] + ' ' + 'Every pair starts with the same-name life cycle: both users create a collection of the same name, both fill it, one deletes it (the other must keep all of hers), then the other way round.'
